@@ -170,6 +170,8 @@ class PathSim:
                 if n is not None:
                     st[("n", target.id)] = n
         elif isinstance(target, (ast.Tuple, ast.List)):
+            if value is not None and not isinstance(value, (ast.Tuple, ast.List)):
+                value = self.resolve(value, before)   # `a, b = (x, y) if c else (y, x)` with c known on this path
             if isinstance(value, (ast.Tuple, ast.List)) and len(value.elts) == len(target.elts) and \
                     not any(isinstance(x, ast.Starred) for x in [*value.elts, *target.elts]):
                 for t, v in zip(target.elts, value.elts):
@@ -178,6 +180,16 @@ class PathSim:
                 for t in target.elts:
                     self._bind(t.value if isinstance(t, ast.Starred) else t, None, before, st)
         # attribute / subscript stores do not change what is known about locals
+
+    def _walrus(self, test: ast.expr, st: State) -> State:
+        """the state after the assignment expressions of a test (`if (m := f(x)) is not None:` binds m on both arms)"""
+        st1 = st
+        for n in ast.walk(test):
+            if isinstance(n, ast.NamedExpr):
+                if st1 is st:
+                    st1 = dict(st)
+                self._bind(n.target, n.value, st, st1)
+        return st1
 
     # -- statements ---------------------------------------------------------------------------------------------------
     def paths(self, init: "State | None" = None) -> list[Path]:
@@ -227,6 +239,7 @@ class PathSim:
         if isinstance(s, ast.Expr) and isinstance(s.value, ast.Constant):
             return [(st, trail, None)]  # docstring
         if isinstance(s, ast.If):
+            st = self._walrus(s.test, st)
             v = self.truth(s.test, st)
             out = []
             if v is not False:
@@ -397,6 +410,20 @@ def _narrowed(test: ast.expr, taken: bool, st: State, depth: int = 0) -> dict[st
         return _narrowed(st[("v", test.id)], taken, st, depth + 1)   # a condition held in a local
     x = _error_test(test) if isinstance(test, ast.expr) else None
     return {x: taken} if x is not None else {}
+
+
+def implied_atoms(test: ast.expr, taken: bool) -> list[tuple[ast.expr, bool]]:
+    """the atoms whose truth value follows from the test having come out as `taken`: (atom, its value) - through not, the operands
+    of an `and` that held, of an `or` that did not"""
+    if isinstance(test, ast.UnaryOp) and isinstance(test.op, ast.Not):
+        return implied_atoms(test.operand, not taken)
+    if isinstance(test, ast.BoolOp):
+        if isinstance(test.op, ast.And) == taken:
+            return [x for v in test.values for x in implied_atoms(v, taken)]
+        return []
+    if isinstance(test, ast.NamedExpr):
+        return implied_atoms(test.value, taken)
+    return [(test, taken)]
 
 
 def path_error_facts(p: Path) -> dict[str, bool]:
@@ -577,15 +604,42 @@ class _Inliner:
         self.helpers = {h.name: h for h in region_any(ix, f, depth)[1:]}
         self.depth = depth
         self.n = 0
+        self.own = local_names(f.node) | {p.arg for p in f.params}
 
     def run(self) -> ast.AST:
         import copy
 
-        if not self.helpers:
-            return self.f.node
         fn = copy.deepcopy(self.f.node)
         fn.body = self._block(fn.body, (self.f.name,))
         return ast.fix_missing_locations(fn) if self.n else self.f.node
+
+    def _unrolled(self, s: ast.stmt) -> "list[ast.stmt] | None":
+        """`for x in <constant sequence>: body` -> `x = e0; body; x = e1; body; ...` when the sequence is written out (in the loop
+        header or as a module-level constant of the function's module) and the body neither breaks nor continues: a table of
+        cases walked by a loop is the same program as the cases written one after the other"""
+        import copy
+
+        if not isinstance(s, ast.For) or s.orelse or not isinstance(s.target, ast.Name):
+            return None
+        it: "ast.expr | None" = s.iter
+        if isinstance(it, ast.Name) and it.id not in self.own:
+            it = self.f.module.variables.get(it.id)
+        if not isinstance(it, (ast.Tuple, ast.List)) or not (0 < len(it.elts) <= 8) or any(isinstance(x, ast.Starred) for x in it.elts):
+            return None
+        todo: list[ast.AST] = list(s.body)
+        while todo:
+            n = todo.pop()
+            if isinstance(n, (ast.Break, ast.Continue)):
+                return None
+            if isinstance(n, (ast.For, ast.AsyncFor, ast.While, ast.FunctionDef, ast.AsyncFunctionDef, ast.ClassDef, ast.Lambda)):
+                continue
+            todo += list(ast.iter_child_nodes(n))
+        out: list[ast.stmt] = []
+        for el in it.elts:
+            out.append(ast.copy_location(ast.Assign(targets=[ast.Name(id=s.target.id, ctx=ast.Store())], value=copy.deepcopy(el)), s))
+            out += [copy.deepcopy(x) for x in s.body]
+        self.n += 1
+        return out
 
     def _block(self, body: list[ast.stmt], stack: tuple[str, ...]) -> list[ast.stmt]:
         out: list[ast.stmt] = []
@@ -608,6 +662,10 @@ class _Inliner:
                     out += got
                     skip = True
                     continue
+            flat = self._unrolled(s)
+            if flat is not None:
+                out += self._block(flat, stack)
+                continue
             out += self._hoist(s, stack)
             if not isinstance(s, (ast.FunctionDef, ast.AsyncFunctionDef, ast.ClassDef)):
                 for fld in ("body", "orelse", "finalbody"):
@@ -860,7 +918,10 @@ class _Builder:
                 for c in calls_in(loop):
                     if isinstance(c.func, ast.Attribute) and c.func.attr in ("append", "add") and isinstance(c.func.value, ast.Name):
                         self.L.add(c.func.value.id)
-        self.L |= self._closure(lambda v: False, set(self.L))
+        # ... and a list made from it element by element (a comprehension without condition, map, sorted / reversed): as many
+        # elements, none of them null - whatever is done to the elements is not this rule's business
+        for _ in range(3):
+            self.L |= self._closure(lambda v: self._elementwise(_strip(v)), set(self.L))
         self.T = {nm for nm, ds in self.lc.defs.items() for _, _, v in ds if v is not None and self._types_of_L(v)}
         self.ty = {nm for nm, ds in self.lc.defs.items() for k, _, v in ds if v is not None and k.startswith("assign") and
                    names_in(v) & self.T and not (isinstance(v, ast.Call) and call_name(v) == "len") and nm not in self.T and
@@ -894,6 +955,18 @@ class _Builder:
                         changed = True
                         break
         return names
+
+    def _elementwise(self, e: ast.expr) -> bool:
+        """e has one element for every element of the null-free list"""
+        if isinstance(e, (ast.ListComp, ast.GeneratorExp)) and len(e.generators) == 1 and not e.generators[0].ifs:
+            return self.is_L(e.generators[0].iter)
+        if isinstance(e, ast.Call) and not e.keywords:
+            fn = call_name(e).rsplit(".", 1)[-1]
+            if fn in ("sorted", "reversed", "list", "tuple") and len(e.args) == 1:
+                return self.is_L(e.args[0]) or self._elementwise(e.args[0])
+            if fn == "map" and len(e.args) == 2:
+                return self.is_L(e.args[1])
+        return False
 
     def _enum_read(self, e: ast.expr) -> bool:
         return isinstance(e, ast.Attribute) and e.attr == "enum" and isinstance(e.value, ast.Name) and e.value.id in self.params
@@ -1267,16 +1340,85 @@ def _carries_converted_default(b: _Builder, p: Path) -> bool:
 # =====================================================================================================================
 
 class _Merge:
+    """merge_properties seen from one enum class K: the dispatcher with the private helpers it hands over to written out in place
+    (_Inliner: calls in return position, helper calls in tests, loops over constant tables unrolled), simulated under scenarios that
+    say which property class each of the two arguments has.  Which helper does the work, how many there are and what they are
+    called is not asked."""
+
     def __init__(self, ix: Any, f: FuncInfo, cls_name: str):
         self.ix, self.f, self.K = ix, f, cls_name
-        self.fn = f.node
+        self.fn = _Inliner(ix, f, depth=3).run()
         ps = [p.arg for p in f.params]
         if len(ps) != 2:
             raise AnalysisError(f"anchor missing: the two properties merged by {f.name}")
         self.p = {ps[0]: 1, ps[1]: 2}
         self.locals = local_names(self.fn)
-        self.err = error_names(self.fn)
-        self.n_subset = 0
+        self.err = error_locals(self.fn)
+        self.class_names_all = {c.name for c in ix.classes.values()}
+        self._mro: dict[str, set[str]] = {}
+
+    def mro(self, cname: str) -> set[str]:
+        if cname not in self._mro:
+            self._mro[cname] = {k.name for k in self.ix.mro(self.ix.cls(cname))}
+        return self._mro[cname]
+
+    # -- what an expression stands for on a path ---------------------------------------------------------------------------------------
+    def deep(self, e: ast.expr, st: State, sim: PathSim, depth: int = 0) -> ast.expr:
+        """PathSim.resolve, followed through the constants of the module and the fields of a record that was constructed in sight
+        (`flavour.prop_type` with flavour bound to `_Flavour(prop_type=K, ...)` is K)"""
+        e = sim.resolve(e, st)
+        if depth > 5:
+            return e
+        if isinstance(e, ast.Name) and e.id not in self.locals and e.id not in self.p and e.id in self.f.module.variables:
+            return self.deep(self.f.module.variables[e.id], st, sim, depth + 1)
+        if isinstance(e, ast.Attribute):
+            base = self.deep(e.value, st, sim, depth + 1)
+            if isinstance(base, ast.Call) and not any(k.arg is None for k in base.keywords):
+                v = next((k.value for k in base.keywords if k.arg == e.attr), None)
+                last = call_name(base).rsplit(".", 1)[-1]
+                if v is None and last in self.class_names_all and not any(isinstance(x, ast.Starred) for x in base.args):
+                    flds = list(self.ix.cls(last).fields)
+                    if e.attr in flds and flds.index(e.attr) < len(base.args):
+                        v = base.args[flds.index(e.attr)]
+                if v is not None:
+                    return self.deep(v, st, sim, depth + 1)
+        return e
+
+    def applied(self, e: ast.expr, st: State, sim: PathSim) -> ast.expr:
+        """a call of a local / field that holds a `lambda x: body` is body with x replaced by the argument"""
+        import copy
+
+        if isinstance(e, ast.Call) and not e.keywords:
+            fn = self.deep(e.func, st, sim)
+            a = fn.args if isinstance(fn, ast.Lambda) else None
+            if a is not None and not (a.vararg or a.kwarg or a.kwonlyargs or a.defaults) and len(a.args) + len(a.posonlyargs) == len(e.args):
+                ps = [x.arg for x in [*a.posonlyargs, *a.args]]
+                args = list(e.args)
+
+                class S(ast.NodeTransformer):
+                    def visit_Name(self, n: ast.Name) -> ast.AST:
+                        return copy.deepcopy(args[ps.index(n.id)]) if n.id in ps else n
+
+                return S().visit(copy.deepcopy(fn.body))
+        return e
+
+    def class_names(self, e: ast.expr, st: State, sim: PathSim) -> "list[str] | None":
+        """the classes an isinstance test names (tuples, module constants and record fields followed); None: not known"""
+        e = self.deep(e, st, sim)
+        out: list[str] = []
+        for x in (e.elts if isinstance(e, (ast.Tuple, ast.List, ast.Set)) else [e]):
+            x = self.deep(x, st, sim)
+            if isinstance(x, (ast.Tuple, ast.List, ast.Set)):
+                sub = self.class_names(x, st, sim)
+                if sub is None:
+                    return None
+                out += sub
+                continue
+            nm = (dotted(x) or "").rsplit(".", 1)[-1]
+            if nm not in self.class_names_all:
+                return None
+            out.append(nm)
+        return out
 
     def side(self, e: ast.expr, st: State, sim: PathSim) -> "int | None":
         """1 / 2: the expression stands for the first / second property on this path"""
@@ -1286,8 +1428,9 @@ class _Merge:
         return None
 
     def values_side(self, e: ast.expr, st: State, sim: PathSim) -> "int | None":
-        """the property whose member table the expression reads (p.values, set(p.values.items()), ...)"""
-        e = sim.resolve(e, st)
+        """the property whose member table the expression reads (p.values, set(p.values.items()), f(p) with f a lambda that
+        reads its argument's values, ...)"""
+        e = self.applied(sim.resolve(e, st), st, sim)
         hits = set()
         for n in ast.walk(e):
             if isinstance(n, ast.Attribute) and n.attr == "values":
@@ -1308,7 +1451,7 @@ class _Merge:
             if a and b and a != b:
                 return (a, b, False) if e.func.attr == "issubset" else (b, a, False)
         if isinstance(e, ast.Call) and depth == 0 and not e.keywords and len(e.args) == 2:
-            # a helper of the module that decides the subset relation of its two parameters
+            # a helper of the module that decides the subset relation of its two parameters (one the inliner left alone)
             h = next((g for g in self.ix.all_functions if g.name == call_name(e).rsplit(".", 1)[-1] and g.module is self.f.module and g.cls is None), None)
             sides = [self.side(a, st, sim) for a in e.args]
             if h is not None and len(h.params) == 2 and all(sides) and sides[0] != sides[1]:
@@ -1321,18 +1464,15 @@ class _Merge:
         return None
 
     def sim(self, sc: dict[str, Any]) -> PathSim:
-        kinds = sc["kinds"]  # side -> "enum" | "int" | "str" | "other"
+        kinds = sc["kinds"]  # side -> name of the property class the argument has
 
         def leaf(e: ast.expr, st: State, sim: PathSim) -> "bool | None":
             if isinstance(e, ast.Call) and call_name(e) == "isinstance" and len(e.args) == 2:
                 s = self.side(e.args[0], st, sim)
-                if s is None:
+                names = self.class_names(e.args[1], st, sim) if s is not None else None
+                if s is None or names is None:
                     return None
-                names = _class_names(e.args[1])
-                known = {self.K: "enum", "IntProperty": "int", "StringProperty": "str"}
-                if all(n in known for n in names):
-                    return kinds[s] in {known[n] for n in names}
-                return None
+                return any(n in self.mro(kinds[s]) for n in names)
             sub = self.subset(e, st, sim) if isinstance(e, (ast.Compare, ast.Call)) else None
             if sub is not None:
                 i, j, strict = sub
@@ -1345,8 +1485,13 @@ class _Merge:
                 for x, y in ((a, b), (b, a)):
                     if isinstance(x, ast.Attribute) and x.attr == "value_type" and isinstance(y, ast.Name) and y.id in ("int", "str", "float", "bool"):
                         s = self.side(x.value, st, sim)
-                        if s is not None and kinds[s] == "enum" and sc.get("value_type"):
+                        if s is not None and kinds[s] == self.K and sc.get("value_type"):
                             return _cmp(e.ops[0], sc["value_type"], y.id)
+                # type(a) is type(b): the two arguments have the same class
+                if all(isinstance(x, ast.Call) and call_name(x) == "type" and len(x.args) == 1 for x in (a, b)):
+                    sa_, sb_ = self.side(a.args[0], st, sim), self.side(b.args[0], st, sim)   # type: ignore[attr-defined]
+                    if sa_ and sb_:
+                        return _cmp(e.ops[0], kinds[sa_], kinds[sb_])
             return None
 
         return PathSim(self.fn, leaf)
@@ -1381,20 +1526,22 @@ class _Merge:
 
 
 def enum_merge_parity(rep: Report, ctx: Any, rid: str) -> None:
-    """Entry point kept under its historical name: the facts below are checked on each merge function independently."""
+    """Entry point kept under its historical name: the facts below are checked for each enum class independently."""
     ix = ctx.py
-    rep.rule(rid, "each enum merge function (_merge_with_enum, _merge_with_literal_enum), on its own: two enums merge to the one "
-                  "whose members are a subset of the other's (both directions are tried, values and class come from the "
-                  "narrower one) and are an error when neither is; an enum merges with a plain property only when that is "
-                  "an IntProperty / StringProperty matching the enum's value type (result built from the enum), otherwise it "
-                  "is an error")
+    rep.rule(rid, "merge_properties, for each enum class K (EnumProperty, LiteralEnumProperty) on its own, whichever helpers do the "
+                  "work: two K merge to the one whose members are a subset of the other's (both directions are tried, values and "
+                  "class come from the narrower one) and are an error when neither is; a K merges with a property of another class "
+                  "only when that is an IntProperty / StringProperty matching the enum's value type (result built from the enum); "
+                  "with every other property class of the package (AnyProperty, which merges with everything, apart) it is an error")
     n = 0
-    for fname, cname in (("merge_properties._merge_with_enum", "EnumProperty"), ("merge_properties._merge_with_literal_enum", "LiteralEnumProperty")):
-        f = ix.func(fname)
+    f = ix.func("merge_properties.merge_properties")
+    plain = sorted(c.name for c in ix.property_classes() if c.name != "AnyProperty")
+    rep.require("IntProperty" in plain and "StringProperty" in plain, "the property classes IntProperty and StringProperty")
+    for cname in ("EnumProperty", "LiteralEnumProperty"):
         m = _Merge(ix, f, cname)
         w = where(f, f.node)
-        k = short(f)
-        both = {1: "enum", 2: "enum"}
+        k = f"{short(f)}[{cname}]"
+        both = {1: cname, 2: cname}
         # ---- two enums ------------------------------------------------------------------------------------------------------
         for s12, s21 in ((False, False), (True, False), (False, True), (True, True)):
             sim = m.sim({"kinds": both, "subset": {(1, 2): s12, (2, 1): s21}})
@@ -1415,15 +1562,17 @@ def enum_merge_parity(rep: Report, ctx: Any, rid: str) -> None:
                            "the merged enum does not take its members and class from the property whose members are the subset", w,
                            f"values / class_info of property {want}")
             n += 1
-        # ---- one enum, one plain property -----------------------------------------------------------------------------------------
+        # ---- one enum, one property of another class ------------------------------------------------------------------------------
         for es in (1, 2):
-            for kind in ("int", "str", "other"):
+            for other in plain:
+                if other == cname:
+                    continue
                 for vt in ("int", "str"):
-                    kinds = {es: "enum", 3 - es: kind}
+                    kinds = {es: cname, 3 - es: other}
                     sim = m.sim({"kinds": kinds, "value_type": vt})
                     paths = sim.paths()
-                    key = f"{k}::enum-with-plain[enum={es},plain={kind},value_type={vt}]"
-                    if kind == vt:
+                    key = f"{k}::enum-with-plain[enum={es},plain={other},value_type={vt}]"
+                    if ("IntProperty" in m.mro(other) and vt == "int") or ("StringProperty" in m.mro(other) and vt == "str"):
                         def from_enum(p: Path, sim: PathSim = sim, es: int = es) -> bool:
                             return not m.is_error(p) and m.result_base(p, sim)[0] == es
 
@@ -1433,4 +1582,4 @@ def enum_merge_parity(rep: Report, ctx: Any, rid: str) -> None:
                         _claim_all(rep, rid, key, paths, m.is_error, m.relevant,
                                    "an enum is merged with a property that is not of its value type", w, "return PropertyError(...)")
                     n += 1
-    rep.floor("enum_merge_facts", n, 16)
+    rep.floor("enum_merge_facts", n, 60)
